@@ -39,6 +39,9 @@ TNext ==
               /\ member' = [member EXCEPT ![e.args.user] = e.args.member]
               /\ viol' = IF e.out.synced THEN viol ELSE viol \cup {<<l, "setmember", {"MODEL_MISMATCH"}>>}
               /\ last' = [op |-> "setmember"] /\ UNCHANGED <<dirUp, cache, now, hist, downSince>>
+         [] e.ev = "mint" -> last' = [op |-> "mint"] /\ cache' = [cache EXCEPT ![e.args.user] = CacheAfter(e.args.user)]
+                             /\ UNCHANGED <<member, dirUp, now, hist, downSince>>
+                             /\ viol' = (IF e.out.verdict THEN viol ELSE viol \cup {<<l, "mint", {"G_C08_AutomationAdminMints"}>>})
          [] e.ev = "dirdown" -> dirUp' = FALSE /\ last' = [op |-> "dirdown"] /\ UNCHANGED <<member, cache, now, hist, downSince, viol>>
          [] e.ev = "dirup"   -> dirUp' = TRUE /\ last' = [op |-> "dirup"] /\ UNCHANGED <<member, cache, now, hist, downSince, viol>>
          [] e.ev = "tick"    -> now' = now + e.args.d /\ last' = [op |-> "tick"] /\ UNCHANGED <<member, dirUp, cache, hist, downSince, viol>>
